@@ -190,7 +190,7 @@ def c08_verbatim(state, cfg, doc):
         if t.type == "fence" and t.info:
             if t.info not in own[0]:
                 fails.append({"what": f"fence info {t.info!r} not in its opening line", "key": "C08/info"})
-        if t.type == "list_item_open" and t.info:
+        if t.type == "list_item_open" and (t.info or t.markup in ".)"):
             if not (t.info.isascii() and t.info.isdigit() and re.search(r"(^|[^0-9])" + re.escape(t.info) + r"[.)]", lines[b])):
                 fails.append({"what": f"list item info {t.info!r} is not the digits written in {lines[b]!r}", "key": "C08/list-info"})
         if t.type == "ordered_list_open":
